@@ -28,7 +28,7 @@ pub fn base_config() -> Value {
 			"cert_file_ext": "pem", "pk_file_ext": "pem", "file_name_format": "{{ name }}_{{ key_type }}.{{ file_type }}.{{ ext }}",
 			"renew_delay": "3w", "random_early_renew": "2d", "env": {"A": "b"}, "root_certificates": [],
 		},
-		"rate-limit": [{"name": "rl", "number": 20, "period": "1s"}],
+		"rate-limit": [{"name": "rl", "number": 20, "period": "10s"}],
 		"endpoint": [{"name": "e1", "url": "http://127.0.0.1:9/dir", "tos_agreed": true, "rate_limits": ["rl"], "renew_delay": "1w", "random_early_renew": "1h", "root_certificates": []}],
 		"hook": [
 			{"name": "h1", "type": ["post-operation"], "cmd": "true", "args": ["{{ status }}"], "allow_failure": true, "stdin_str": "x", "stdout": format!("{ROOT}/o"), "stderr": format!("{ROOT}/e")},
@@ -183,6 +183,11 @@ pub fn hazards() -> Vec<CfgCase> {
 	add("group cycle of length 1", &|c| c["group"] = json!([{"name": "g1", "hooks": ["g1"]}]), vec![], None);
 	add("group cycle of length 2", &|c| c["group"] = json!([{"name": "g1", "hooks": ["h1", "g2"]}, {"name": "g2", "hooks": ["g1"]}]), vec![], None);
 	add("group cycle of length 3", &|c| c["group"] = json!([{"name": "g1", "hooks": ["g2"]}, {"name": "g2", "hooks": ["g3"]}, {"name": "g3", "hooks": ["h2", "g1"]}]), vec![], None);
+	// cycles that do not contain the group the certificate names
+	add("group cycle of length 1 behind the entry group", &|c| c["group"] = json!([{"name": "g1", "hooks": ["h1", "gb"]}, {"name": "gb", "hooks": ["gb"]}]), vec![], None);
+	add("group cycle of length 2 behind the entry group", &|c| c["group"] = json!([{"name": "g1", "hooks": ["gb"]}, {"name": "gb", "hooks": ["h2", "gc"]}, {"name": "gc", "hooks": ["gb"]}]), vec![], None);
+	add("group cycle of length 3 behind two entry groups", &|c| c["group"] = json!([{"name": "g1", "hooks": ["ga"]}, {"name": "ga", "hooks": ["gb"]}, {"name": "gb", "hooks": ["gc"]}, {"name": "gc", "hooks": ["gd"]}, {"name": "gd", "hooks": ["h1", "gb"]}]), vec![], None);
+	add("diamond-shaped group nesting (no cycle)", &|c| c["group"] = json!([{"name": "g1", "hooks": ["ga", "gb"]}, {"name": "ga", "hooks": ["gc"]}, {"name": "gb", "hooks": ["gc"]}, {"name": "gc", "hooks": ["h1"]}]), vec![], Some(100));
 	add(
 		"group cycle used by an account only",
 		&|c| {
@@ -208,6 +213,10 @@ pub fn hazards() -> Vec<CfgCase> {
 	for (n, period, predicted) in [(0u64, "10s", None), (0, "1s", None), (0, "1h", None), (1, "1s", Some(100u64)), (1, "2s", Some(400)), (1000000, "1s", Some(100)), (1, "0s", Some(100)), (1, "1w", None)] {
 		let p2 = period.to_string();
 		add(&format!("rate limit {n} per {period}"), &move |c| c["rate-limit"] = json!([{"name": "rl", "number": n, "period": p2}]), vec![], predicted);
+	}
+	for (n, period) in [(4294967296u64, "10s"), (8589934592, "2s"), (4294967296 * 3, "1h"), (1u64 << 40, "30s"), (4294967297, "10s"), (65536, "10s"), (4294967295, "10s")] {
+		let p2 = period.to_string();
+		add(&format!("rate limit {n} per {period}"), &move |c| c["rate-limit"] = json!([{"name": "rl", "number": n, "period": p2}]), vec![], Some(100));
 	}
 	add("rate limit with number 2^63-1", &|c| c["rate-limit"] = json!([{"name": "rl", "number": 9223372036854775807i64, "period": "10s"}]), vec![], Some(100));
 	add("rate limit with a period that overflows", &|c| c["rate-limit"] = json!([{"name": "rl", "number": 5, "period": "30500568904944w"}]), vec![], None);
